@@ -412,6 +412,32 @@ fn judge(dirs: &Dirs, cs: &CrashState, acked: &[(String, String)], bulk_kib: u32
             });
         }
     }
+    // (e') after the continuation the threads that were appended to must have coherent caches
+    // again: the same comparison on the continued store (caches as found vs removed vs model)
+    if cs.index % 4 == 1 || cs.before_effect.contains("cs:") {
+        world.close();
+        let image1 = crate::seam::passthrough(|| faults::read_tree(&dirs.data));
+        let only: Vec<String> = threads.iter().take(4).cloned().collect();
+        let mut sub = RunStats::default();
+        match crate::checks::c04::compare_store_only(&dirs.root, &dirs.workspace, &image1, &truth1, cs.index as u64 ^ 0xc0de, 2, &mut sub, &[], &[], Some(&only)) {
+            Ok(Some(v)) => {
+                // the signature names the file the crash was about to write: which cache files the
+                // in-flight append had not reached yet decides what can be stale afterwards
+                // the signature says how far the in-flight append had got: only the truth line
+                // (the restarted authority then rebuilds the thread's caches from truth), or
+                // already into the thread's cache files (nothing notices the caches it had not
+                // reached yet)
+                let next = if cs.after_effect.contains("cs:") { "cache_files_reached" } else { "truth_line_only" };
+                return Some(Violation {
+                    class: format!("continued_store_{}", v.class),
+                    signature: format!("continued_store_{}@crash_with_{next}", v.signature),
+                    detail: format!("crash {at}, after restart and an append to the thread: {}", v.detail),
+                });
+            }
+            Ok(None) => stats.bump("continued_store_comparisons", 1),
+            Err(e) => return Some(Violation { class: "harness".into(), signature: "harness".into(), detail: e }),
+        }
+    }
     // (g) artifact-before-frame: every artifact a present frame references exists and parses
     let blobs = dirs.blobs_dir();
     for f in &truth0.frames {
@@ -668,7 +694,7 @@ impl Check for C05 {
         serde_json::to_value(sc).unwrap()
     }
     fn rule(&self) -> String {
-        "one run = one seeded history of 3-16 store operations (messages incl. frames larger than the 8 KiB writer buffer, full runs with compile/side-effects/cursor, runs with reply frames and a session snapshot, manual and automatic compaction, branch, handoff) executed once; EVERY mutating file-system effect boundary of the run (log, each sidecar and index, index.json tmp+rename, artifact tmp+rename) is a crash point: the captured on-disk state is restarted with a fresh EventLog+ContinuityStore, replayed, continued with further appends (1 in 8 histories first let another stream write 1.3 MB, so the threads' tails are far from the end of the log; the default thread must be obtainable and accept a post) and judged; evaluations = crash states restarted; distinct = distinct abstract crash state (files per class, lines per class, torn-frame flag, next effect class); exhaustive within each history, sampled across histories".into()
+        "one run = one seeded history of 3-16 store operations (messages incl. frames larger than the 8 KiB writer buffer, full runs with compile/side-effects/cursor, runs with reply frames and a session snapshot, manual and automatic compaction, branch, handoff) executed once; EVERY mutating file-system effect boundary of the run (log, each sidecar and index, index.json tmp+rename, artifact tmp+rename) is a crash point: the captured on-disk state is restarted with a fresh EventLog+ContinuityStore, replayed, continued with further appends (1 in 8 histories first let another stream write 1.3 MB, so the threads' tails are far from the end of the log; the default thread must be obtainable and accept a post) and judged (incl. C04's cache comparison once more on the continued store for the threads that were appended to); evaluations = crash states restarted; distinct = distinct abstract crash state (files per class, lines per class, torn-frame flag, next effect class); exhaustive within each history, sampled across histories".into()
     }
     fn assumptions(&self) -> Vec<String> {
         vec![
